@@ -768,15 +768,30 @@ pub fn quantile_geometry<T: Elem>(w: &World<T>, op: &Op) -> Option<(Vec<Vec<usiz
 
 /// does some (lane, q) of this call have a lower/higher pair whose difference
 /// is not representable in the element type (known finding F4)?
+/// Does the recorded finding F4 apply to interpolating between `lo` and `hi` with fraction `frac`?
+/// Midpoint computes `higher - lower` in the element type; Linear converts both ends to f64 first
+/// and only `fraction * (higher - lower)` has to fit the element type.
+pub fn f4_applies(ty: ElemTy, lo: NumVal, hi: NumVal, frac: f64, strat: Strat) -> bool {
+    let int_max = ty.spread_max();
+    match strat {
+        Strat::Midpoint => !spread_representable(lo, hi, int_max),
+        Strat::Linear => match (lo, hi) {
+            (NumVal::I(a), NumVal::I(b)) => ((b - a) as f64 * frac).abs() >= int_max as f64,
+            _ => !(hi.as_f64() - lo.as_f64()).is_finite(),
+        },
+        _ => false,
+    }
+}
+
+/// does some (lane, q) of this call fall under the recorded finding F4?
 pub fn spread_overflow_possible(ty: ElemTy, lanes_sorted: &[Vec<NumVal>], qs: &[f64], strat: Strat) -> bool {
     if strat.selecting() {
         return false;
     }
-    let int_max = ty.spread_max();
     for l in lanes_sorted {
         for &q in qs {
             for c in index_pairs(q, l.len()) {
-                if !spread_representable(l[c.lo], l[c.hi], int_max) {
+                if f4_applies(ty, l[c.lo], l[c.hi], c.frac, strat) {
                     return true;
                 }
             }
@@ -794,7 +809,58 @@ pub fn sorted_numvals(ty: ElemTy, raws: &[i64]) -> Vec<NumVal> {
     v
 }
 
+/// C03 on an owned receiver: the per-axis quantile routines run on an owned copy of the view
+/// (rejected requests included); afterwards the array must have the shape it had and every lane
+/// along the axis must hold the multiset it held.
+fn op_quantile_owned<T: OrdElem>(cx: &mut Ctx, scn: &Scenario, w: &mut World<T>, op: &Op) {
+    if op.name.ends_with('1') || op.axis >= w.idx.ndim() || op.qs.iter().any(|q| q.is_nan()) {
+        return;
+    }
+    let mut owned: ArrayD<T> = w.view_mut().to_owned();
+    let shape0 = owned.shape().to_vec();
+    let lane_sets = |a: &ArrayD<T>| -> Vec<Vec<i64>> {
+        a.lanes(Axis(op.axis))
+            .into_iter()
+            .map(|l| {
+                let mut v: Vec<i64> = l.iter().map(|x| x.to_raw()).collect();
+                v.sort_unstable();
+                v
+            })
+            .collect()
+    };
+    let before_sets = lane_sets(&owned);
+    let total = owned.len();
+    let (out, sess) = with_policy(&op.policy, budget(total) + 64 * (before_sets.len() + 1) * (op.qs.len() + 1), || {
+        let qa = q_list(&op.qs, op.form);
+        let bulk = op.name == "quantiles_axis";
+        let q0 = n64(op.qs.first().copied().unwrap_or(0.5));
+        with_strat!(op.strat, i => if bulk {
+            if qa.form == 0 { owned.quantiles_axis_mut(Axis(op.axis), &qa.backing, i).map(|_| ()) } else { owned.quantiles_axis_mut(Axis(op.axis), &qa.view(), i).map(|_| ()) }
+        } else {
+            owned.quantile_axis_mut(Axis(op.axis), q0, i).map(|_| ())
+        })
+        .is_ok()
+    });
+    cx.note_draws(op.policy.kind, &sess.draws);
+    cx.stats.probe("quantile_on_owned_receiver");
+    let _ = scn;
+    if matches!(out, Outcome::Done(false)) {
+        cx.stats.probe("rejected_quantile_request_on_owned_receiver");
+    }
+    if owned.shape() != shape0.as_slice() {
+        cx.fail("not-a-permutation:owned-shape", format!("{} (axis {}, qs {:?}) on an owned array of shape {:?} left it with shape {:?}", op.name, op.axis, op.qs, shape0, owned.shape()));
+        return;
+    }
+    if lane_sets(&owned) != before_sets {
+        cx.fail(&format!("not-a-permutation:{}", op.name), format!("{} (axis {}, qs {:?}) on an owned array of shape {:?}: some lane along the axis no longer holds the elements it held (call returned {})", op.name, op.axis, op.qs, shape0, match out { Outcome::Done(true) => "Ok", Outcome::Done(false) => "Err", _ => "by panicking" }));
+    }
+}
+
 fn op_quantile<T: OrdElem>(cx: &mut Ctx, scn: &Scenario, w: &mut World<T>, op: &Op, prop: Prop) {
+    if prop == Prop::C03 && op.storage == 1 {
+        op_quantile_owned(cx, scn, w, op);
+        return;
+    }
     let (lanes, want_shape) = match quantile_geometry(w, op) {
         Some(g) => g,
         None => return,
@@ -877,8 +943,7 @@ fn op_quantile<T: OrdElem>(cx: &mut Ctx, scn: &Scenario, w: &mut World<T>, op: &
             for (j, &q) in op.qs.iter().enumerate() {
                 let got = get(l, j);
                 if let Err(e) = check_quantile(sorted, q, op.strat, got.num()) {
-                    let int_max = ty.spread_max();
-                    let ovf = !op.strat.selecting() && index_pairs(q, sorted.len()).iter().any(|c| !spread_representable(sorted[c.lo], sorted[c.hi], int_max));
+                    let ovf = !op.strat.selecting() && index_pairs(q, sorted.len()).iter().any(|c| f4_applies(ty, sorted[c.lo], sorted[c.hi], c.frac, op.strat));
                     if ovf {
                         cx.known("interp-spread-overflow", format!("{} lane {} request {}: {}", op.name, l, j, e));
                     } else {
